@@ -46,3 +46,13 @@ package filetracker
 //@   call Walk#1 bind walked = $0
 //@   ensures [every-query-walks-the-whole-tree] walked_set
 //@   only Walk 1
+
+// ---- marker keys (C22): the key of a marker spells its WHOLE offset as an 8-byte big-endian word, so that
+// distinct offsets have distinct keys and byte order of the keys is offset order (what the walk relies on),
+// and the offset read back from a key is the one it was made from
+//@ func getKey
+//@   call PutUint64#1 assert [the-whole-offset-into-an-eight-byte-key] len($b) == 8 && $v == key
+//@   ensures [eight-bytes] key >= 0 ==> len(result) == 8
+//@   ensures [spells-the-offset] key >= 0 ==> be64(result) == key
+//@ func getOffset
+//@   ensures [reads-the-offset-back] be64(k) < 9223372036854775808 ==> result == be64(k)
